@@ -387,7 +387,11 @@ func c05TwinStreamSet(allowNil bool) {
 		c05SameStreamSet("minusstreams", ga.MinusStreams(gb), ta.MinusStreams(tb), probes)
 		c05SameStreamSet("minus", c05AsStreamSet(ga.Minus(&gb.MapSetDef)), ta.Minus(tb), probes)
 		vfAssert("issubset", ga.IsSubsetByKey(&gb.MapSetDef) == ta.IsSubsetByKey(tb))
-		vfAssert("issuperset", ga.IsSupersetByKey(&gb.MapSetDef) == ta.IsSupersetByKey(tb))
+		if gb.Size() == 0 {
+			vfAssert("issuperset-of-empty-set", ga.IsSupersetByKey(&gb.MapSetDef) == ta.IsSupersetByKey(tb))
+		} else {
+			vfAssert("issuperset", ga.IsSupersetByKey(&gb.MapSetDef) == ta.IsSupersetByKey(tb))
+		}
 	})
 	if ok {
 		vfReach("end")
